@@ -18,6 +18,14 @@ claimed["C12"]=dict(cat="model_checking",
    text="(a) ecs.subscribes, the listener-side copy, the subscription bit assembly and event.Subscription are decided for all inputs (symbolic trigger, 256/64-bit masks, nil-ness, relation ids) against the documented rule; Dispatch is decided for three sub-listeners with fully symbolic subscriptions/restrictions and one fully symbolic event: each sub-listener receives exactly what it would receive alone, and the union restriction never drops such an event.",
    note="Trusted: go/ssa lowering, gosx interpreter (conformance-validated), z3. Dispatch bound: 3 sub-listeners, 3 construction orders. Call-site trigger arguments at world level are covered by the C11 harnesses' event oracle.",
    tech="symbolic execution of go/ssa + SMT validity queries (z3)", ref="5 C12")
+def world(pid, text, ref):
+    claimed[pid]=dict(cat="model_checking", text=text, note=WORLD_NOTE, tech="bounded symbolic execution of go/ssa with SMT-decided path conditions and assertions (z3), reference-model / differential oracle, native replay", ref=ref)
+world("C02","(a) one-step lemmas: entityPool.Get/Recycle (and the filter-id intPool) are executed symbolically from an arbitrary well-formed pool (every free-list shape up to 6 slots, fully symbolic 32-bit generations, a symbolic earlier-issued ghost handle) and the solver decides freshness, liveness, monotonic death, alive count and preservation of well-formedness for all values; (b) world level: prefixes with recycled ids x symbolic single/batch creations (symbolic count) and removals (single, by filter, Reset) with model + invariant after each step. The 2^32 generation wrap is reported as a known finding by a separate unbounded lemma.","5 C02")
+world("C03","Every filter kind, plain and registered, on every world reached by the prefixes (+1 symbolic operation in thorough): full iteration vs the model (each matching alive entity once, nothing else, accessors agree with the world), Count, EntityAt(i) with a fully symbolic 64-bit index and j x Next followed by Step(s) with a fully symbolic 64-bit step decided against the iteration order; the queries returned by batch Q-variants are decided the same way.","5 C03")
+world("C05","Every target-taking API (creation with target, Relations.Set/Exchange, Builder.Add ids/values, NewBatch(Q), batch SetRelation, ExchangeBatch(Q)) is driven from relation-heavy prefixes with the target ranging over zero / alive / dead / dead-with-re-issued-id / self; legality (must panic vs must succeed) and the resulting target are decided against the documented rules, together with relation calls naming a wrong component (every id incl. 0) and relation swap/removal through plain Exchange; observables incl. relation-filter queries for every target are compared with the model.","5 C05")
+world("C06","Prefixes with dying targets (non-empty table, retired table, re-issued id, self-target, empty-but-active child table, Reset over populated relation tables) x symbolic removal / re-creation / retargeting operations; decided: no panic, children keep components, payloads and the dead handle, re-used tables start empty and zeroed (structural invariant incl. free-list and target-map consistency after every step, relation queries for every target).","5 C06")
+world("C07","The registered filter and the original filter are compared on the same world (same entities, same Count) for 9 filter kinds registered before any table exists or after each of 11 prefixes, across one further operation incl. Reset/re-issue and batch operations through the registered filter (model as oracle); cache clauses of the structural invariant (list = freshly computed selection, index map current) after every step; Unregister semantics on three registrations.","5 C07")
+world("C08","Each batch operation and its Q variant (Batch.Add/Remove/Exchange, Relations.ExchangeBatch, Batch.SetRelation/Relations.SetBatch, Batch.RemoveEntities, Builder.NewBatch with target/values/count) is executed symbolically on every prefix through every filter kind with every argument pair legal for all matching entities; oracle: the documented single-entity effect applied to every entity matching at call time (the same model that C01 validates against the single-entity operations), returned count, and the Q query's entities/components/targets.","5 C08")
 na_reason = {}
 default_na="check not built yet in this round (solver-based harness pending)"
 checks=[]
